@@ -38,6 +38,12 @@ def arraybox_table(ctx, world):
             for t in st.targets:
                 if isinstance(t, ast.Name):
                     assigns[t.id] = st.value
+                    if isinstance(st.value, ast.Lambda) and t.id.startswith("__") and t.id.endswith("__"):
+                        methods[t.id] = st.value  # __eq__ = lambda self, other: ...
+    # special methods attached after the class body (setattr / attribute assignment, possibly in a loop over a table)
+    for cq, aname, tgt, sm, site, expr in world.table.setattrs:
+        if cq == ab.qual and aname.startswith("__") and aname.endswith("__") and expr is not None:
+            methods[aname] = (expr, sm)
     nt_v = world.table.notrace_quals("autograd.core.VJPNode")
     nt_j = world.table.notrace_quals("autograd.core.JVPNode")
     n = 0
@@ -46,10 +52,28 @@ def arraybox_table(ctx, world):
     ev = world.ev
 
     def body_term(fn, owner="ArrayBox", mod=BOXES):
-        """(evaluated body with local helpers inlined, [parameter symbols])"""
-        res, sy, m_, fn_, sc_ = eval_function(world, mod, f"{owner}.{fn.name}")
+        """(evaluated body with local helpers inlined, [parameter symbols]) of a method given as a def in the
+        class body, a lambda assigned in the class body, or an expression attached with setattr / attribute
+        assignment after the class (possibly the result of a factory call)"""
+        if isinstance(fn, ast.FunctionDef) and getattr(fn, "_parent", None) is not None and isinstance(fn._parent, ast.ClassDef):
+            res, sy, m_, fn_, sc_ = eval_function(world, mod, f"{owner}.{fn.name}")
+            res = unseq(expand(ev, res, ("autograd.numpy.numpy_wrapper._astype",))) if res is not None else None
+            return res, [sy[a.arg] for a in fn.args.args]
+        if isinstance(fn, tuple):
+            expr, emod = fn
+            v = ev.ev(expr, Scope(), emod)
+        else:
+            v = T("closure", fn, m, fnode=fn, scope=Scope(), bound=[], boundkw={})
+        v = unseq(expand(ev, v, ())) if v.op != "closure" else v
+        clo, pre, prekw = ev.as_closure(v)
+        if clo is None or pre or prekw:
+            return None, []
+        a = clo.fnode.args
+        names = [p.arg for p in a.posonlyargs + a.args]
+        ps = [T("sym", name=nm_, role="param") for nm_ in names]
+        res = ev.apply(clo, list(ps), {}, [])
         res = unseq(expand(ev, res, ("autograd.numpy.numpy_wrapper._astype",))) if res is not None else None
-        return res, [sy[a.arg] for a in fn.args.args]
+        return res, ps
 
     def wrapped_of(t):
         if t is None or t.op != "call":
@@ -61,7 +85,7 @@ def arraybox_table(ctx, world):
         return t.op == "attr" and t.name == "_value" and t.obj is selfs
 
     for name, fn in sorted(methods.items()):
-        loc = loc_of(m, fn)
+        loc = loc_of(m, fn) if not isinstance(fn, tuple) else loc_of(fn[1], fn[0])
         inst = f"ArrayBox.{name}"
         if name in ops["binary"]:
             n += 1
@@ -268,7 +292,7 @@ def operators(ctx, world):
     r, syms, m, node, sc = eval_function(world, "autograd.wrap_util", "unary_to_nary.nary_operator.nary_f")
     loc = loc_of(m, node)
     q = "autograd.wrap_util.unary_to_nary"
-    args, kw = syms["args"], syms["kwargs"]
+    args, kw = syms["*"], syms["**"]
     outer = sc.parent
     argnum, fun, uop = outer.lookup("argnum"), outer.lookup("fun"), outer.parent.lookup("unary_operator") if outer.parent else None
     from ..tutil import expand, specialise, unseq
@@ -336,7 +360,7 @@ def operators(ctx, world):
         r, syms, m, node, sc = ev_op(name)
         loc = loc_of(m, node)
         q = f"{DO}.{name}"
-        x, fun = syms["x"], syms["fun"]
+        x, fun = syms["#1"], syms["#0"]
         mvs = [t for t in walk(r) if mv(t)]
         if not mvs or not (mvs[0].args[0] is fun and mvs[0].args[1] is x):
             ctx.fail("A15", f"{name}: make_vjp(fun, x)", f"{q}:make_vjp", loc, f"{name} does not call make_vjp(fun, x)", "any call")
@@ -377,14 +401,14 @@ def operators(ctx, world):
     # ---- deriv
     r, syms, m, node, sc = ev_op("deriv")
     r = strip_seq(r)
-    x, fun = syms["x"], syms["fun"]
+    x, fun = syms["#1"], syms["#0"]
     ok = r.op == "sub" and r.idx.op == "const" and r.idx.value == 1 and r.obj.op == "call" and is_call_to(r.obj.fn, "autograd.core.make_jvp") and r.obj.fn.args[0] is fun and r.obj.fn.args[1] is x and len(r.obj.args) == 1 and r.obj.args[0].op == "call" and r.obj.args[0].fn.op == "attr" and r.obj.args[0].fn.name == "ones" and is_call_to(r.obj.args[0].fn.obj, "autograd.core.vspace") and r.obj.args[0].fn.obj.args[0] is x
     _okfail(ctx, "A2.tuple", "deriv = make_jvp(fun, x)(vspace(x).ones())[1]", ok, loc_of(m, node), "deriv does not take element [1] (the tangent) of make_jvp(fun, x)(vspace(x).ones())", "deriv(f)(x)", construct=f"{DO}.deriv")
     # ---- jacobian
     r, syms, m, node, sc = ev_op("jacobian")
     r = strip_seq(r)
     loc = loc_of(m, node)
-    x, fun = syms["x"], syms["fun"]
+    x, fun = syms["#1"], syms["#0"]
     mvs = [t for t in walk(r) if mv(t)]
     ok = False
     why = "structure not recognised"
@@ -413,7 +437,7 @@ def operators(ctx, world):
     # ---- holomorphic_grad
     r, syms, m, node, sc = ev_op("holomorphic_grad")
     r = strip_seq(r)
-    x, fun = syms["x"], syms["fun"]
+    x, fun = syms["#1"], syms["#0"]
     ok = False
     if r.op == "call" and len(r.args) == 1 and r.args[0] is x and r.fn.op == "call":
         gcall = r.fn
@@ -448,11 +472,11 @@ def operators(ctx, world):
     # ---- make_hvp / hessian
     r, syms, m, node, sc = ev_op("make_hvp")
     r = strip_seq(r)
-    ok = mv(r) and r.args[1] is syms["x"] and r.args[0].op == "call" and _callee_name(world, DO, r.args[0]) == "grad" and r.args[0].args and r.args[0].args[0] is syms["fun"]
+    ok = mv(r) and r.args[1] is syms["#1"] and r.args[0].op == "call" and _callee_name(world, DO, r.args[0]) == "grad" and r.args[0].args and r.args[0].args[0] is syms["#0"]
     _okfail(ctx, "A15", "make_hvp = make_vjp(grad(fun), x)", ok, loc_of(m, node), "make_hvp is not make_vjp(grad(fun), x)", "hessian-vector products", construct=f"{DO}.make_hvp")
     r, syms, m, node, sc = ev_op("hessian")
     r = strip_seq(r)
-    ok = r.op == "call" and len(r.args) == 1 and r.args[0] is syms["x"] and r.fn.op == "call" and _callee_name(world, DO, r.fn) == "jacobian" and r.fn.args and r.fn.args[0].op == "call" and _callee_name(world, DO, r.fn.args[0]) == "jacobian" and r.fn.args[0].args[0] is syms["fun"]
+    ok = r.op == "call" and len(r.args) == 1 and r.args[0] is syms["#1"] and r.fn.op == "call" and _callee_name(world, DO, r.fn) == "jacobian" and r.fn.args and r.fn.args[0].op == "call" and _callee_name(world, DO, r.fn.args[0]) == "jacobian" and r.fn.args[0].args[0] is syms["#0"]
     _okfail(ctx, "A15", "hessian = jacobian(jacobian(fun))(x)", ok, loc_of(m, node), "hessian is not jacobian(jacobian(fun))(x)", "hessian of a scalar function", construct=f"{DO}.hessian")
     # ---- checkpoint (term level: the registered rule and the returned primitive)
     from ..tutil import expand as _expand, unseq as _unseq
@@ -485,8 +509,8 @@ def operators(ctx, world):
     rv = _unseq(r) if r is not None else None
     funp, namep = syms[node.args.args[0].arg], syms[node.args.args[1].arg]
     ok = False
-    if rv is not None and rv.op == "call" and _callee_name(world, DO, rv) == "grad" and len(rv.args) == 2 and rv.args[0] is funp and not rv.kw:
-        ix = rv.args[1]
+    if rv is not None and rv.op == "call" and _callee_name(world, DO, rv) == "grad" and rv.args and rv.args[0] is funp and len(rv.args) + len(rv.kw) == 2 and (len(rv.args) == 2 or "argnum" in rv.kw):
+        ix = rv.args[1] if len(rv.args) == 2 else rv.kw["argnum"]
         # <signature of fun>.args.index(argname)
         if ix.op == "call" and ix.fn.op == "attr" and ix.fn.name == "index" and len(ix.args) == 1 and ix.args[0] is namep:
             base = ix.fn.obj
